@@ -408,9 +408,9 @@ def history_cases(ctx, readers, terms, metas, idx):
     class LoggedBox(BoxRandoms):
         sizes = None
 
-        def __call__(self, probe_size):
+        def __call__(self, probe_size, *a, **k):
             self.sizes.append(int(probe_size))
-            return super().__call__(probe_size)
+            return super().__call__(probe_size, *a, **k)
 
     def shape(cs, big=True):
         """input lengths around the chunk boundaries, beyond two chunks unless `big` is off"""
